@@ -1,7 +1,7 @@
 (* ===== C03 : rank reduction -- combinatorial core ===== *)
 From Coq Require Import List NArith ZArith QArith Qcanon Bool Arith Permutation.
 Import ListNotations.
-Require Import Scope ScopeP1 ScopeP2 ScopeP3 Mat MatScope.
+Require Import Scope ScopeP1 ScopeP2 ScopeP3 Mat MatScope MatSep MatLoop.
 
 (* Component semantics: a scoped term with numeric factors N, reduced factors R and full categorical factors F denotes the
    interval { S | N u R <= S <= N u R u F } of the subset lattice ([covers]); columns are independent iff the emitted
@@ -29,6 +29,22 @@ Theorem C03_spanned_terms_disjoint : forall isnum t t' c, canon isnum t -> canon
   covers isnum t c = true -> covers isnum t' c = true -> Scope.st_eqb t t' = true.
 Proof. exact canon_same_component. Qed.
 
+(* ---- the LOOP over all terms of a formula (`_get_scoped_terms` with its `spanned` set), for ANY evaluated factor pool and ANY
+   list of terms with distinct factors: (A) the components of the scoped terms that are emitted are, with multiplicity, exactly
+   the components of the accumulated span; (B) no component is emitted twice (columns stay independent); (C) the accumulated
+   span contains the full span of every term that is not skipped (nothing of the unreduced column space is lost). *)
+Theorem C03_loop_emits_each_component_once : forall evs terms, Forall term_ok terms ->
+  let r := fold_left (scope_step true evs) terms ([], []) in
+  (forall c, sum_cnt evs c (fst r) = count (isnum_of evs) c (map st_f (snd r))) /\
+  (forall c, (count (isnum_of evs) c (map st_f (snd r)) <= 1)%nat).
+Proof. exact loop_components. Qed.
+Theorem C03_loop_covers_every_term_span : forall evs terms t s, In t terms -> evf_of evs t <> [] -> has_zero (evf_of evs t) = false ->
+  In s (spanned_by (evf_of evs t)) -> Mat.mem_st s (snd (fold_left (scope_step true evs) terms ([], []))) = true.
+Proof. exact loop_cover. Qed.
+(* the scoped terms the materializer uses are the first component of that fold *)
+Theorem C03_get_scoped_terms_is_the_loop : forall fr evs terms, get_scoped_terms fr evs terms = fst (fold_left (scope_step fr evs) terms ([], [])).
+Proof. reflexivity. Qed.
+
 (* non-vacuity: over two categoricals,  {A-, A-:B-}  becomes  {A-:B}  (B full inside A reduced), and an intercept plus A-
    becomes A with all its levels *)
 Example C03_example :
@@ -43,4 +59,7 @@ Print Assumptions C03_simplify_wellformed.
 Print Assumptions C03_materializer_uses_it.
 Print Assumptions C03_span_components_preserved.
 Print Assumptions C03_spanned_terms_disjoint.
+Print Assumptions C03_loop_emits_each_component_once.
+Print Assumptions C03_loop_covers_every_term_span.
+Print Assumptions C03_get_scoped_terms_is_the_loop.
 Print Assumptions C03_example.
